@@ -24,7 +24,7 @@ EXTRA = [
 def gen_nests(ck: Check):
     for n in EXTRA + SYSTEMATIC:
         yield "systematic", n
-    for _ in range(90 if ck.quick else 900):
+    for _ in range(70 if ck.quick else 800):
         yield "random", L.gen_tree(ck.rng, maxdepth=3, lengths=(0, 1, 2, 3), width=3)
 
 
@@ -66,7 +66,7 @@ def judge(base, s, a):
 
 def run(ck: Check) -> None:
     ck.rule = (
-        "23 systematic nests + seeded random trees (as C07) over all twelve constructs; every nest is rendered (sync and async) without "
+        "25 systematic nests + seeded random trees (as C07) over all twelve constructs; every nest is rendered (sync and async) without "
         "limits and under a sweep of each of the five limits alone - loop_iteration_limit 0..2*largest loop product, output_stream_limit "
         "0..2*unlimited bytes, local_namespace_limit 0, t-1, t for every observed namespace size t, 2*max, context_depth_limit 0..14, "
         "block_nesting_limit 0..5 - and under 6 random ordered pairs lim <= lim' of joint configurations; oracle: equal to the unlimited "
@@ -151,8 +151,8 @@ def run(ck: Check) -> None:
                 report("c08-limit-zero-means-unlimited-joint" if zero else "c08-not-monotone-joint",
                        f"succeeds under {l1.as_dict()} but gives {s2[:2]} under the pointwise larger limits",
                        nest, printed, l2, s2, {"kind": "monotone", "smaller": l1.as_dict()})
-    g = sw.groups[len(sw.groups) // 2]
-    r = g[2][len(g[2]) // 2]
+    g = sw.groups[2]
+    r = g[2][min(4, len(g[2]) - 1)]
     ck.sample({"template": g[1][0], "partials": g[1][1], "limits": r[0].as_dict(), "observed": r[2][:2]})
     for nest, printed, lim, sizes, s in sw.mismatches(ck, "c08", chunk=10)[:3]:
         model = ck.coq_eval(L.IMPORTS, [f"run_case ({L.g_case(lim, nest, sizes)})"])[0]
